@@ -131,7 +131,7 @@ def run(ctx, factor):
             rep.violate("failing-operation-exits-zero", case, {"api": lst}, c)
         rep.case(case, lst[0] == "ok", tags=["binary" if binary else "assembly", "all" if allm else "first", "addr-only" if ao else "full",
                                               "macros=%d" % len(mpaths), "api:" + ("found" if lst[0] == "ok" and lst[1] else lst[0] if lst[0] != "ok" else "not-found")])
-        if rep.violations and factor > 1:
+        if rep.has_new() and factor > 1:
             return
     # argument rules and failing operations
     rule_path = sc.write(impl.dump_yaml({"pattern": ["mov"]}), ".yaml")
